@@ -62,12 +62,14 @@ def main():
     sid = sys.argv[1]
     base = os.environ.get("SEED_BASE", "/tmp/seed")
     wt, out = "%s/%s" % (base, sid), "%s/%s-out" % (base, sid)
-    dest = os.path.join(VERIF, "seeded", sid + os.environ.get("SEED_SUFFIX", ""))
+    dest = os.path.join(VERIF, os.environ.get("SEED_DEST", "seeded"), sid + os.environ.get("SEED_SUFFIX", ""))
     os.makedirs(dest, exist_ok=True)
     for f in ("patch.diff", "demo.rs", "notes.md"):
         if os.path.exists(os.path.join(out, f)):
             shutil.copy(os.path.join(out, f), os.path.join(dest, f))
     meta = {"id": sid + os.environ.get("SEED_SUFFIX", ""), "breaks_property": sid.split("-")[0], "source": "independent sub-agent given only the property text and a scratch worktree"}
+    if os.environ.get("SEED_DEST", "seeded") != "seeded":
+        meta = {"id": sid, "kind": "behaviour-preserving refactoring (no check may report a violation)", "source": "independent sub-agent given only an area of the code and a scratch worktree"}
     if os.path.exists(os.path.join(dest, "meta.json")):
         try:
             meta.update(json.load(open(os.path.join(dest, "meta.json"))))
@@ -98,6 +100,7 @@ def main():
     meta["checks_run"] = results
     meta["caught_by"] = sorted(p for p, r in results.items() if r["exit"] == 1)
     meta["undecided_in"] = sorted(p for p, r in results.items() if r["exit"] == 2)
+    meta["false_alarms"] = meta["caught_by"] if os.environ.get("SEED_DEST", "seeded") != "seeded" else []
     meta["what_was_run"] = "git -C /repo apply seeded/%s/patch.diff; ./check <id> --tier quick for %s; git -C /repo checkout -- ." % (sid, ",".join(pids))
     json.dump(meta, open(os.path.join(dest, "meta.json"), "w"), indent=1)
     print("caught_by:", meta["caught_by"], "undecided:", meta["undecided_in"])
